@@ -12,9 +12,9 @@ CHUNK = 1
 CASE_TIMEOUT = 900
 RULE = ("rewrite-rule closure from base programs: state = program text, transition = one spelling rule applied at one site. Rule families: "
         "letter case (mnemonic, directive, register, symbol, radix prefix, hex digits, ^C/^R), whitespace (tab, doubled blanks, blank "
-        "line, trailing and full-line comment), number radix (octal, n., 0x, 0o, 0b, ^X, ^O, ^B, ^D), grouping (<> () ^/ /), register "
+        "line, trailing and full-line comment), number radix (octal, n., 0x, 0o, 0b, ^X, ^O, ^B, ^D), grouping (<> () ^/ /; brackets around a complete operand, immediate or index offset dropped), register "
         "spelling (rN %N sp/pc), mnemonic synonyms and pseudo-instruction expansions, explicit '.word' vs implicit list, (rN) vs @rN. "
-        "From each of 27 single-file and 3 multi-file generated base programs (covering the statement kinds of C02/C04/C05/C06): every single rule at every site (deviation "
+        "From each of 29 single-file and 3 multi-file generated base programs (covering the statement kinds of C02/C04/C05/C06): every single rule at every site (deviation "
         "1), every pair of sites (deviation 2, thorough), every subset of rule families applied everywhere; from each of the 21 practice "
         "programs: each conservative rule family applied everywhere, all pairs, all together. Oracle: identical status, base, bytes and "
         "error kinds as the base program (warnings ignored); base programs are anchored by C01-C06. Non-trivial = distinct rewritten text")
@@ -72,6 +72,11 @@ BASE_PROGRAMS += [
     "t:\t.word 1, ., .+2\n\t.word 2, <.-t>, t\n\t.dw 3, .\n",
     "\t.byte 1, 2\n\t.db 3, 4\n\t.word 100, 200\n\t.dw 300\n\tbhis .+2\n\tblo .+2\n\tclrd ac0\n\ttstd (r1)\n\tldd (r2), ac1\n\tstd ac1, (r3)\n",
     "\tmov #<2+3>*4, r0\n\tmov <2+3>*4, r0\n\tclr <4>(r2)\n\tbr <.+4>\n\tnop\n\tsob r0, <.-2>\n\t.blkb <1+2>\n\t.even\n",
+]
+BASE_PROGRAMS += [
+    # one statement token compiled several times ('.repeat') with grouped subexpressions that mention '.'
+    "t:\t.repeat 4 { .word <.-t> }\n\t.repeat 3 {\n\tmov #<.+4>, r0\n\tmov <t-.>(r1), r2\n\t.word <.>, <.-t>/2\n\t}\n\t.word <.-t>\n",
+    "\t.link 3000\nq:\t.repeat 2 { .repeat 2 { .byte <.-q>, <.-q>&1 } }\n\t.even\n\t.repeat 3 { clr <.+2> }\n\t.blkb <.-q>&3\n",
 ]
 # multi-file base programs: (context files assembled before it, the file that is rewritten)
 MULTI = [
@@ -222,6 +227,19 @@ def at_statement_start(toks, i):
     return j < 0 or toks[j][0] == "nl" or (toks[j][0] == "punct" and toks[j][1] in ":{")
 
 
+def whole_operand(toks, i, j):
+    """the group toks[i]..toks[j] is a complete operand (or a complete immediate / index offset): its brackets are redundant"""
+    a = i - 1
+    while a >= 0 and toks[a][0] == "sp":
+        a -= 1
+    b = j + 1
+    while b < len(toks) and toks[b][0] == "sp":
+        b += 1
+    before = a >= 0 and (toks[a][0] in ("mn", "dir") or toks[a][1] in (",", "#"))
+    after = b >= len(toks) or toks[b][0] == "nl" or toks[b][1] in (",", "}", "(")
+    return before and after
+
+
 def sites(toks):
     """all (family, site index, variant) rewrites applicable to this token list"""
     out = []
@@ -254,6 +272,8 @@ def sites(toks):
         if kind == "go" and not at_statement_start(toks, i):
             out.append(("group", i, "paren"))
             out.append(("group", i, "caret"))
+        if kind == "go" and not at_statement_start(toks, i) and whole_operand(toks, i, meta):
+            out.append(("ungroup", i, "drop"))
         if kind == "reg":
             n = REGS[t.lower()]
             for f in ("r%d" % n, "%%%d" % n) + (("sp",) if n == 6 else ()) + (("pc",) if n == 7 else ()):
@@ -324,6 +344,8 @@ def apply(toks, site):
             inner = render(toks[i + 1:j])
             d = "?" if "/" in inner else "/"
             toks[i][1], toks[j][1] = "^" + d + " ", " " + d
+    elif fam == "ungroup":
+        toks[i][1], toks[meta][1] = "", ""
     elif fam == "register":
         toks[i][1] = var
     elif fam == "synonym":
@@ -446,7 +468,7 @@ def check(case, r, tier):
                 compare(r, base, new, new, {"k": "text", "base": text, "text": new, "fam": site[0], "ctx": ctxj}, site[0])
         elif k == "pairs":
             for a, b in itertools.combinations(st, 2):
-                if a[1] == b[1] or a[0] in ("pseudo", "group") or b[0] in ("pseudo", "group"):
+                if a[1] == b[1] or a[0] in ("pseudo", "group", "ungroup") or b[0] in ("pseudo", "group", "ungroup"):
                     continue
                 hi, lo = (a, b) if a[1] > b[1] else (b, a)
                 new = render(apply(apply(toks, hi), lo))
